@@ -437,6 +437,44 @@ def eval_registry(case):
     return None
 
 
+def eval_registry_chain(case):
+    """The installed hook belongs to a registry that derives from another one
+    (both flavours): what I(obj) answers follows later registrations in the
+    base, exactly as registry.queryAdapter(obj, I) does."""
+    from zope.interface.adapter import VerifyingAdapterRegistry
+    flavour, step2 = case
+    newworld()
+    R0 = InterfaceClass('R0', (Interface,), {'__module__': wmod()})
+    R1 = InterfaceClass('R1', (R0,), {'__module__': wmod()})
+    I = InterfaceClass('I', (Interface,), {'__module__': wmod()})
+    obj = implementer(R1)(type('K', (), {}))()
+    cls = AdapterRegistry if flavour == 'adapter' else VerifyingAdapterRegistry
+    base = cls()
+    reg = cls((base,))
+    base.register([R0], I, '', lambda o: ('A0', id(o)))
+    saved = list(adapter_hooks)
+    adapter_hooks[:] = [reg.adapter_hook]
+    try:
+        first = I(obj, None)
+        if first != reg.queryAdapter(obj, I):
+            return ('registry-chain:first-answer', first)
+        if step2 == 'register-more-specific':
+            base.register([R1], I, '', lambda o: ('A1', id(o)))
+        elif step2 == 'unregister':
+            base.unregister([R0], I, '')
+        else:
+            reg.register([R1], I, '', lambda o: ('OWN', id(o)))
+        second = I(obj, None)
+    finally:
+        adapter_hooks[:] = saved
+    fresh = cls((base,))
+    if step2 == 'register-own':
+        fresh.register([R1], I, '', lambda o: ('OWN', id(o)))
+    if second != fresh.queryAdapter(obj, I):
+        return ('registry-chain:answer-after-' + step2, second, fresh.queryAdapter(obj, I))
+    return None
+
+
 def evaluate(arg):
     viol = []
     n = 0
@@ -449,6 +487,8 @@ def evaluate(arg):
                 n -= 1
                 continue
             outcomes.add((exp[0], str(exp[1]), tuple(exp[2])))
+        elif kind == 'chain':
+            v = eval_registry_chain(case)
         else:
             v = eval_registry(case)
         if v:
@@ -463,7 +503,8 @@ def _t(x):
 
 def replay(case):
     c = _t(case['case'])
-    v = eval_case(c)[0] if case['kind'] == 'call' else eval_registry(c)
+    v = eval_case(c)[0] if case['kind'] == 'call' else eval_registry_chain(c) if case['kind'] == 'chain' \
+        else eval_registry(c)
     return dict(violation=v) if v else None
 
 
@@ -486,6 +527,8 @@ def run(ctx):
     cases += [('reg', c) for c in itertools.product(
         ['empty', 'R0', 'R1', 'extends', 'none-factory', 'named-only', 'None-required'],
         (False, True), ('absent', 'value'))]
+    cases += [('chain', c) for c in itertools.product(
+        ('adapter', 'verifying'), ('register-more-specific', 'unregister', 'register-own'))]
     outcomes = set()
     for impl in ('c', 'py'):
         res = ctx.map(impl, 'evaluate', chunks(cases, 600))
